@@ -497,56 +497,111 @@ def _v(rep, rule, ok, cons, okmsg, path, qual, badmsg, line):
 
 
 def _normalize_rule(model, rep):
+    """Form._normalize_asm_kwargs by symbolic runs: one call per kind of
+    parameter (1-D array, n-D array, field with matching / other quadrature,
+    number, index tuple, unsupported object)."""
+    from ..interp import Interp, Obj, PyFunc, Raised, Unsupported
     R4 = "C01-R4"
     fn = model.func("skfem.assembly.form.form", "Form._normalize_asm_kwargs")
     path = fn.path
-    loops = [n for n in fn.node.body if isinstance(n, ast.For)]
-    if len(loops) != 1 or not loops[0].body or not isinstance(
-            loops[0].body[0], ast.If):
-        raise AnalysisError("_normalize_asm_kwargs: type chain not found")
-    node = loops[0].body[0]
-    branches = []
-    while True:
-        branches.append((src(node.test), node.body))
-        if len(node.orelse) == 1 and isinstance(node.orelse[0], ast.If):
-            node = node.orelse[0]
-        else:
-            tail = node.orelse
-            break
-    _v(rep, R4, bool(tail) and isinstance(tail[-1], ast.Raise),
-       "normalize:else-raises", "unsupported parameter types raise", path,
+    dfc = model.cls("skfem.element.discrete_field", "DiscreteField")
+    NQ = 4
+
+    class Nd:
+        skv_isarray = True
+        skv_types = ("numpy.ndarray",)
+
+        def __init__(self, ndim, tag):
+            self.ndim, self.tag = ndim, tag
+
+        def skv_getattr(self, name):
+            if name == "shape":
+                return tuple(Poly.sym(f"{self.tag}{k}")
+                             for k in range(self.ndim))
+            raise Unsupported("array." + name)
+
+    class Fld:
+        def __init__(self, nq):
+            self.nq = nq
+
+        def skv_getattr(self, name):
+            if name == "shape":
+                return (Poly.sym("nel"), self.nq)
+            raise Unsupported("field." + name)
+    basis_log = []
+    basis = Obj(None, {"X": Obj(None, {"shape": (2, NQ)}),
+                       "interpolate": PyFunc(
+                           lambda a, k, n: (basis_log.append(a[0]),
+                                            ("interpolated", a[0]))[1])})
+
+    def hook(interp, name, args, kwargs, node):
+        if name.endswith("DiscreteField"):
+            return ("wrapped", tuple(args))
+        return NotImplemented
+
+    def run_one(value):
+        w = {"k": value}
+        it = Interp(model, call_hook=hook)
+        orig_builtin = it.builtin
+
+        def builtin(f, args, kwargs, node):
+            # isinstance against the package's DiscreteField class and the
+            # abstract number type, for the rule's stubs
+            if f.name == "isinstance" and len(args) == 2:
+                o, t = args
+                tn = getattr(getattr(t, "cls", None), "name",
+                             getattr(t, "name", ""))
+                if tn == "DiscreteField":
+                    return isinstance(o, Fld)
+                if str(tn).endswith("Number"):
+                    return isinstance(o, (int, Fraction)) and \
+                        not isinstance(o, bool)
+            return orig_builtin(f, args, kwargs, node)
+        it.builtin = builtin
+        try:
+            r = it.call(fn, [w, basis], {})
+        except Raised as e:
+            return "raised", None
+        except Unsupported as e:
+            raise AnalysisError(f"_normalize_asm_kwargs: {e}")
+        if r is not w and not (isinstance(r, dict) and r == w):
+            return "other", r
+        return "ok", w["k"]
+    vec = Nd(1, "n")
+    st, v = run_one(vec)
+    _v(rep, R4, st == "ok" and v == ("interpolated", vec),
+       "normalize:vector", "1-D arrays are interpolated with the producer's "
+       "basis", path, "Form._normalize_asm_kwargs",
+       f"a coefficient vector becomes {v!r} ({st}) instead of "
+       f"basis.interpolate(vector)", fn.lineno)
+    arr = Nd(3, "a")
+    st, v = run_one(arr)
+    _v(rep, R4, st == "ok" and v == ("wrapped", (arr,)), "normalize:array",
+       ">=2-D arrays are wrapped unchanged", path,
+       "Form._normalize_asm_kwargs",
+       f"a pre-evaluated array becomes {v!r} ({st}) instead of "
+       f"DiscreteField(array)", fn.lineno)
+    good, badf = Fld(NQ), Fld(7)
+    st1, v1 = run_one(good)
+    st2, _ = run_one(badf)
+    _v(rep, R4, st1 == "ok" and v1 is good and st2 == "raised",
+       "normalize:field", "pre-interpolated fields pass unchanged when their "
+       "quadrature size matches the basis and raise otherwise", path,
+       "Form._normalize_asm_kwargs",
+       f"a field with matching quadrature: {st1}; with another number of "
+       f"quadrature points: {st2} (must raise)", fn.lineno)
+    st, v = run_one(Fraction(3))
+    st_t, v_t = run_one((0, 1))
+    _v(rep, R4, st == "ok" and v == 3 and st_t == "ok" and v_t == (0, 1),
+       "normalize:scalars", "numbers and asm index tuples pass unchanged",
+       path, "Form._normalize_asm_kwargs",
+       f"numbers / index tuples are not passed through unchanged "
+       f"({st}, {st_t})", fn.lineno)
+    st, v = run_one(Obj(None, {}))
+    _v(rep, R4, st == "raised", "normalize:else-raises",
+       "unsupported parameter types raise", path,
        "Form._normalize_asm_kwargs",
        "an unsupported parameter type is passed on silently", fn.lineno)
-    one_d = [b for t, b in branches if "ndarray" in t and
-             "len(w[k].shape) == 1" in t]
-    ok1 = len(one_d) == 1 and any(
-        isinstance(s, ast.Assign) and src(s.targets[0]) == "w[k]"
-        and src(s.value) == "basis.interpolate(w[k])" for s in one_d[0])
-    _v(rep, R4, ok1, "normalize:vector", "1-D arrays are interpolated with "
-       "the producer's basis", path, "Form._normalize_asm_kwargs",
-       "coefficient vectors are not sent through basis.interpolate",
-       fn.lineno)
-    nd = [b for t, b in branches if "ndarray" in t and
-          "len(w[k].shape) > 1" in t]
-    ok2 = len(nd) == 1 and any(
-        isinstance(s, ast.Assign) and src(s.value) == "DiscreteField(w[k])"
-        for s in nd[0])
-    _v(rep, R4, ok2, "normalize:array", ">=2-D arrays are wrapped unchanged",
-       path, "Form._normalize_asm_kwargs",
-       "pre-evaluated arrays are not wrapped as they are", fn.lineno)
-    df = [b for t, b in branches if "DiscreteField" in t]
-    ok3 = len(df) == 1 and any(isinstance(x, ast.Raise)
-                               for s in df[0] for x in ast.walk(s))
-    _v(rep, R4, ok3, "normalize:field", "pre-interpolated fields are "
-       "checked against the basis' quadrature size", path,
-       "Form._normalize_asm_kwargs",
-       "pre-interpolated fields with another quadrature are accepted",
-       fn.lineno)
-    rets = [n for n in walk_no_nested(fn.node) if isinstance(n, ast.Return)]
-    _v(rep, R4, len(rets) == 1 and src(rets[0].value) == "w",
-       "normalize:returns", "returns the normalised dictionary", path,
-       "Form._normalize_asm_kwargs", "does not return the dictionary",
-       fn.lineno)
 
 
 def _consumers(model, rep):
